@@ -13,16 +13,18 @@ LOG=$OUT/confirm.log; : > $LOG
 # place demo files: README of the agent records intended paths; by convention demo/ mirrors repo-relative paths
 (cd $SRC/demo 2>/dev/null && find . -type f | while read f; do mkdir -p $W/$(dirname $f); cp $f $W/$f; done)
 cd $W
+DEMOTESTS=$(grep -rhoE '^func (Test[A-Za-z0-9_]+)' $SRC/demo 2>/dev/null | sed 's/^func //' | tr '\n' '|' | sed 's/|$//'); [ -z "$DEMOTESTS" ] && DEMOTESTS=__none__
 PKGS=$(grep '^+++ b/' $SRC/patch.diff | sed 's|+++ b/||' | xargs -n1 dirname | sort -u | sed 's|^|./|')
 echo "touched packages: $PKGS" | tee -a $LOG
-go build ./... >>$LOG 2>&1 && echo "baseline build ok" | tee -a $LOG
+go build ./... 2>&1 | grep '^# ' | sort > /tmp/sv-$ID.build0; echo "baseline: $(wc -l < /tmp/sv-$ID.build0) packages fail to build (pre-existing)" | tee -a $LOG
 for p in $PKGS; do go test -count=1 -vet=off -json $p 2>/dev/null | grep '"Action":"pass"' | grep '"Test"' | sed 's/.*"Test":"\([^"]*\)".*/\1/' | sort -u > /tmp/sv-$ID.base.$(echo $p | tr '/.' '__'); done
 echo "== demo on unchanged tree: $DEMO" | tee -a $LOG
 if (eval "$DEMO") >>$LOG 2>&1; then echo "demo passes without the change: OK" | tee -a $LOG; D0=ok; else echo "demo FAILS without the change: BAD" | tee -a $LOG; D0=bad; fi
 git apply $SRC/patch.diff || { echo "patch does not apply" | tee -a $LOG; exit 2; }
-if go build ./... >>$LOG 2>&1; then echo "patched build ok" | tee -a $LOG; B1=ok; else echo "patched build FAILS" | tee -a $LOG; B1=bad; fi
+go build ./... 2>&1 | grep '^# ' | sort > /tmp/sv-$ID.build1
+if diff -q /tmp/sv-$ID.build0 /tmp/sv-$ID.build1 >/dev/null; then echo "patched build: same result as baseline" | tee -a $LOG; B1=ok; else echo "patched build DIFFERS: $(diff /tmp/sv-$ID.build0 /tmp/sv-$ID.build1 | head -5)" | tee -a $LOG; B1=bad; fi
 T1=ok
-for p in $PKGS; do f=/tmp/sv-$ID.base.$(echo $p | tr '/.' '__'); go test -count=1 -vet=off -json $p 2>/dev/null | grep '"Action":"pass"' | grep '"Test"' | sed 's/.*"Test":"\([^"]*\)".*/\1/' | sort -u > $f.new; L=$(comm -23 $f $f.new | grep -v '^TestVerifDemo' | tr '\n' ' '); echo "$p: $(wc -l < $f) tests passed before, lost after patch: [$L]" | tee -a $LOG; [ -n "$L" ] && T1=bad; done
+for p in $PKGS; do f=/tmp/sv-$ID.base.$(echo $p | tr '/.' '__'); go test -count=1 -vet=off -json $p 2>/dev/null | grep '"Action":"pass"' | grep '"Test"' | sed 's/.*"Test":"\([^"]*\)".*/\1/' | sort -u > $f.new; L=$(comm -23 $f $f.new | grep -vE "^($DEMOTESTS)(/|\$)" | tr '\n' ' '); echo "$p: $(wc -l < $f) tests passed before, lost after patch: [$L]" | tee -a $LOG; [ -n "$L" ] && T1=bad; done
 echo "== demo on patched tree" | tee -a $LOG
 if (eval "$DEMO") >>$LOG 2>&1; then echo "demo passes WITH the change: BAD" | tee -a $LOG; D1=bad; else echo "demo fails with the change: OK" | tee -a $LOG; D1=ok; fi
 cd /verif; git -C /repo worktree remove --force $W; rm -f /tmp/sv-$ID.base.*
